@@ -177,6 +177,19 @@ def gen_preset_case(rng, cid, transport, kind):
             "distance": d}
 
 
+def gen_first_select_case(cid, transport):
+    """hook: Send is held with caller 0's request in hand, so callers 1 and 2 sit in their FIRST select with nobody to take
+    their requests; caller 1 is cancelled there (case <-ctx.Done(): c.delete(index) of the first select); then Send goes on
+    and callers 2 and 0 are answered."""
+    steps = [["hold", "send", "dequeued"], ["call", 0, 2500], ["await_yield", "send", "dequeued", 3000],
+             ["call", 1, 2500], ["await_yield", "k1", "before-enqueue", 3000],
+             ["call", 2, 2500], ["await_yield", "k2", "before-enqueue", 3000], ["sleep", 20],
+             ["cancel", 1], ["await_ret", 1, 2000], ["release", "send", "dequeued"], ["await_recv", 2, 3000],
+             ["reply", 2], ["reply", 0], ["await_ret", 2, 3000], ["await_ret", 0, 3000], ["sleep", 20], ["probe", "end"]]
+    return {"id": cid, "fam": "first-select-cancel", "transport": transport, "peer": "script", "steps": steps, "hook": True,
+            "cancelled": [1], "unanswered": []}
+
+
 def gen_rev_case(rng, cid, mode):
     provs = ["pa", "pb"] if rng.random() < 0.7 else ["pa", "pb", "pc"]
     n = rng.choice([3, 4, 6, 8])
@@ -217,6 +230,24 @@ def gen_rev_case(rng, cid, mode):
             "steps": steps, "n": n, "dest": dest, "unanswered": unanswered, "strays": strays, "dups": dups}
 
 
+def corpus_cases(ctx, hook):
+    """corpus/C09-*.json: inputs that failed once (repaired defects).  They run first and must pass."""
+    import glob
+    out = []
+    for n, f in enumerate(sorted(glob.glob(os.path.join(hv.V, "corpus", "C09-*.json")))):
+        r = json.load(open(f))
+        c = dict(r["case"])
+        if c.get("hook") and not hook:
+            continue
+        if r.get("tier") == "thorough" and ctx.tier == "quick":
+            continue
+        c["id"] = 900000 + n
+        c["corpus"] = os.path.basename(f)
+        c["fixed_by"] = r.get("fixed_by")
+        out.append(c)
+    return out
+
+
 def gen_cases(ctx, hook):
     rng = ctx.rng
     quick = ctx.tier == "quick"
@@ -248,6 +279,8 @@ def gen_cases(ctx, hook):
     for _ in range(2 if quick else 10):
         add(gen_rev_case(rng, 0, "real"))
     if hook:
+        for t in ("tcp", "ws", "udp"):
+            add(gen_first_select_case(0, t))
         for t in ("tcp", "ws", "udp", "unix"):
             add(gen_preset_case(rng, 0, t, "boundary"))
         for t in ("tcp", "ws", "udp"):
@@ -335,7 +368,8 @@ def ops_from_log(case, obs):
                 ensure(k, 0, e["i"])
             elif kind == "t:store" and k >= 0:
                 ensure(k, 0, e["i"])
-                op(["s", "h%d" % k], ("s", e.get("x", 0)))
+                idx_of[k] = e["i"]          # rpc/udp may have drawn again after a refused store
+                op(["s", "h%d" % k], ("s", e.get("x", 0), e["i"]))
                 stored.add(k)
             elif kind == "y:dequeued":
                 cands = [kk for kk in stored if idx_of.get(kk) == e["i"] and kk not in enq and kk not in returned]
@@ -421,11 +455,15 @@ def compare(case, obs, ops, expect, out):
     for pos, (tok, shown) in enumerate(zip(toks, expect)):
         if shown is None:
             continue
-        what, val = shown
+        what, val = shown[0], shown[1]
         if what == "a" and tok != "a:%d" % val:
             return "op %d: the implementation drew index %d, the model %s" % (pos, val, tok)
-        if what == "s" and tok != "s:%d" % val:
-            return "op %d: store found the index %s, model %s" % (pos, "present" if val else "free", tok)
+        if what == "s":
+            parts = tok.split(":")
+            if len(parts) != 4 or int(parts[1]) != val:
+                return "op %d: store found the index %s, model %s" % (pos, "present" if val else "free", tok)
+            if len(shown) > 2 and int(parts[2]) != shown[2]:
+                return "op %d: the caller registered under index %d, the model under %s (after %s refused stores)" % (pos, shown[2], parts[2], parts[3])
         if what == "dload":
             loaded = tok != "d:-"
             if loaded != bool(val):
@@ -631,7 +669,9 @@ def run(ctx):
         ctx.note("hook_note", "the tree under test has no verif hooks in rpc/{socket,websocket,udp}: table events are not visible, the "
                  "counter cannot be preset; reduced coverage (scripted peers, real Service, 32,768 real calls for the UDP wrap). "
                  "Apply hooks/c09c10-transports.patch to enable the rest")
-    cases = [expand_strayof(c) for c in gen_cases(ctx, hook)]
+    corpus = corpus_cases(ctx, hook)
+    ctx.note("corpus_cases", len(corpus))
+    cases = corpus + [expand_strayof(c) for c in gen_cases(ctx, hook)]
     heavy = [c for c in cases if c["fam"] in ("wrap", "nowrap")]
     light = [c for c in cases if c["fam"] not in ("wrap", "nowrap")]
     from concurrent.futures import ThreadPoolExecutor
@@ -710,12 +750,16 @@ def evaluate(ctx, cases, byid, hook):
              "and real providers; index wrap by 32,768 real UDP calls (and by counter preset with the hook). non-trivial = replies not in "
              "request order, or strays/duplicates present, or an index boundary/wrap scenario; distinct by full step list")
     ctx.note("exhaustive", False)
+    ctx.note("corpus_passed", sum(1 for c in cases if c.get("corpus")) - len({c["corpus"] for c, _, _, _, _ in hits if c.get("corpus")}))
+    hits.sort(key=lambda h: 0 if h[0].get("corpus") else 1)
     seen = set()
     for c, o, key, text, out in hits:
         if key in seen:
             continue
         seen.add(key)
-        witness = "C09_full_refuted_udp" if "pending-index-reissued-after-32768" in key else None
+        witness = "C09_full_refuted_udp_old" if "pending-index-reissued-after-32768" in key else None
+        if c.get("corpus"):
+            text = "corpus case %s (repaired by %s) fails again: %s" % (c["corpus"], c.get("fixed_by"), text)
         ctx.report(key, text, {"case": c, "observation": slim(o), "model": out[-300:], "failing_input": True,
                                "coq_witness": witness})
     if disagreements and not hits:
